@@ -133,3 +133,110 @@ func H_C05_kinds() {
 	vAssert(vFSOpenFDs() == 0, "no-descriptor-left-open")
 	vReach("end")
 }
+
+//verif:witness H_C05_destroy end
+//verif:bound C05 all Destroy after the real Refresh: a tagged logger of type Logger/AsyncLogger/File/RollingFile and an optional configured root logger of type Logger/AsyncLogger/File/RollingFile (root serves the built-in tags), events and raw writes through both, then Destroy: everything accepted is in its target, loggers were stopped before appenders, no descriptor stays open; Destroy twice
+//verif:engine-only H_C05_destroy
+
+// H_C05_destroy: Destroy flushes and closes everything Refresh started, including a configured root logger.
+func H_C05_destroy() {
+	vOpt("loop", 400)
+	vOpt("preempt", 1)
+	root := vFSRoot()
+	defer vFSCleanup()
+	dir := root + "/logs"
+	vFSMkdir(dir)
+	savedHandles := loggerMap
+	loggerMap = map[string]*LoggerWrapper{}
+	tag := RegisterTag("_c05_tag")
+	defer func() {
+		Destroy()
+		global.init = false
+		loggerMap = savedHandles
+		delete(tagRegistry, "_c05_tag")
+		tag.logger, TagAppDef.logger, TagBizDef.logger = nil, nil, nil
+	}()
+	types := [4]string{"Logger", "AsyncLogger", "File", "RollingFile"}
+	cfg := map[string]string{"appender.ra.type": "Rec", "appender.rb.type": "Rec"}
+	add := func(name, typ, ref, file string) {
+		cfg["logger."+name+".type"] = typ
+		switch typ {
+		case "Logger", "AsyncLogger":
+			cfg["logger."+name+".appenderRef.ref"] = ref
+			if typ == "AsyncLogger" {
+				cfg["logger."+name+".bufferSize"] = "100"
+				cfg["logger."+name+".bufferFullPolicy"] = "Block"
+			}
+		case "File":
+			cfg["logger."+name+".fileDir"] = dir
+			cfg["logger."+name+".fileName"] = file
+		default:
+			cfg["logger."+name+".fileDir"] = dir
+			cfg["logger."+name+".fileName"] = file
+			cfg["logger."+name+".rotation"] = "h"
+			cfg["logger."+name+".async"] = [2]string{"false", "true"}[vChoose(name+"async", 2)]
+			cfg["logger."+name+".bufferFullPolicy"] = "Block"
+		}
+	}
+	lt := types[vChoose("tagged", 4)]
+	add("l1", lt, "ra", "l1.log")
+	cfg["logger.l1.tags"] = "_c05_tag"
+	rt := ""
+	if vChoose("root", 2) == 1 {
+		rt = types[vChoose("rootType", 4)]
+		add("root", rt, "rb", "root.log")
+	}
+	if err := Refresh(cfg); err != nil {
+		panic(err)
+	}
+	var ra, rb *vRecAppender
+	for _, a := range global.appenders {
+		if x, ok := a.(*vRecAppender); ok {
+			if x.Name == "ra" {
+				ra = x
+			} else {
+				rb = x
+			}
+		}
+	}
+	ctx := context.Background()
+	Info(ctx, tag, Msg("tagged-one"))
+	Error(ctx, tag, Msg("tagged-two"))
+	sink := &vSink{}
+	savedOut := Stdout
+	Stdout = sink
+	Info(ctx, TagAppDef, Msg("rooted-one")) // served by the root logger (configured or built-in)
+	Warn(ctx, TagAppDef, Msg("rooted-two"))
+	Stdout = savedOut
+	Destroy()
+	if vChoose("twice", 2) == 1 {
+		Destroy()
+	}
+	check := func(typ string, rec *vRecAppender, file string, a, b string) {
+		switch typ {
+		case "Logger", "AsyncLogger":
+			vAssert(rec.appends == 2, "everything-accepted-is-delivered-when-destroy-returns")
+		case "File":
+			c, _ := vFSRead(dir, file)
+			vAssert(vContains(c, a) && vContains(c, b) && vCountLines(c) == 2, "everything-accepted-is-in-the-file-when-destroy-returns")
+		default:
+			var c []byte
+			for _, n := range vFSNames(dir) {
+				if len(n) > len(file) && n[:len(file)+1] == file+"." {
+					x, _ := vFSRead(dir, n)
+					c = append(c, x...)
+				}
+			}
+			vAssert(vContains(c, a) && vContains(c, b) && vCountLines(c) == 2, "everything-accepted-is-in-the-rolling-file-when-destroy-returns")
+		}
+	}
+	check(lt, ra, "l1.log", "tagged-one", "tagged-two")
+	if rt != "" {
+		check(rt, rb, "root.log", "rooted-one", "rooted-two")
+		vAssert(len(sink.writes) == 0, "configured-root-serves-unrouted-tags")
+	} else {
+		vAssert(len(sink.writes) == 2, "built-in-logger-serves-unrouted-tags")
+	}
+	vAssert(vFSOpenFDs() == 0, "no-descriptor-left-open-after-destroy")
+	vReach("end")
+}
